@@ -49,6 +49,14 @@ def subexprs(e):
         yield from subexprs(e[3])
 
 
+def lambda_ok(e):
+    """can the body be given to modelx as one lambda expression (Renderer.render_lambda)?"""
+    for x in subexprs(e):
+        if x[0] == "try" or (x[0] == "raise" and x[1] not in Renderer.LAMBDA_RAISE):
+            return False
+    return True
+
+
 class Renderer:
     """Render one cells' body to a `def`.
 
@@ -63,7 +71,9 @@ class Renderer:
         self.log_name = log_name
         self.call_wrap = call_wrap
 
-    def render(self, fname, cid, nparams, body):
+    def render(self, fname, cid, nparams, body, lam=False):
+        if lam:
+            return self.render_lambda(fname, cid, nparams, body)
         self.lines = []
         self.n = 0
         self.calls = {}
@@ -76,6 +86,54 @@ class Renderer:
         atom = self.emit(body, 1)
         self.lines.append("    return %s" % atom)
         return "\n".join(self.lines) + "\n", dict(self.calls)
+
+    # natural expressions that raise the kinds a `raise` statement raises in a `def` (a lambda has no statements)
+    LAMBDA_RAISE = {0: "int('k0')", 1: "{}['k1']", 2: "(1 // 0)", 3: "(None + 1)", 4: "undefined_k4", 5: "None.k5"}
+
+    def render_lambda(self, fname, cid, nparams, body):
+        """The same body as ONE lambda expression (formula given as lambda source).  Only the expression
+        subset can be rendered (no `try`, no KeyboardInterrupt); sub-expressions are evaluated by Python in the
+        order the A-normal form spells out: callee name, arguments left to right, call; left operand before
+        right; condition before branch.  Every call is on line 1."""
+        self.params = ["a%d" % i for i in range(nparams)]
+        self.cid = cid
+        self.calls = {}
+        ex = self.lexpr(body)
+        if self.log_name:
+            ex = "(%s(%d, (%s)), %s)[1]" % (self.log_name, cid, "".join(p + ", " for p in self.params), ex)
+        return "lambda %s: %s\n" % (", ".join(self.params), ex), dict(self.calls)
+
+    def lexpr(self, e):
+        t = e[0]
+        if t == "lit":
+            return "(%d)" % e[1]
+        if t == "none":
+            return "None"
+        if t == "p":
+            return self.params[e[1]] if e[1] < len(self.params) else "undefined_param_%d" % e[1]
+        if t in ("add", "sub", "mul"):
+            return "(%s %s %s)" % (self.lexpr(e[1]), {"add": "+", "sub": "-", "mul": "*"}[t], self.lexpr(e[2]))
+        if t == "lt":
+            return "(1 if %s < %s else 0)" % (self.lexpr(e[1]), self.lexpr(e[2]))
+        if t == "if":
+            return "(%s if %s else %s)" % (self.lexpr(e[2]), self.lexpr(e[1]), self.lexpr(e[3]))
+        if t == "call":
+            f = self.names["cell"](e[1])
+            args = [self.lexpr(a) for a in e[2]]
+            self.calls[1] = e[1]
+            if self.call_wrap:
+                return "%s(%d, (%s), %d, %s, (%s))" % (
+                    self.call_wrap, self.cid, "".join(p + ", " for p in self.params), e[1], f,
+                    "".join(a + ", " for a in args))
+            return "%s(%s)" % (f, ", ".join(args))
+        if t == "rn":
+            return self.names["rn"](e[1])
+        if t == "ra":
+            return self.names["ra"](e[1])
+        if t == "raise" and e[1] in self.LAMBDA_RAISE:
+            self.calls[1] = "raise"
+            return self.LAMBDA_RAISE[e[1]]
+        raise ValueError("not renderable as a lambda: %r" % (e,))
 
     def tmp(self):
         self.n += 1
@@ -167,10 +225,19 @@ class Gen:
     """Random programs: a list of cells defs; cells i calls only cells j < i, or itself with
     the first argument decremented under the guard 0 < p0 (so every chain is finite)."""
 
-    def __init__(self, rng, n_rn=2, n_ra=2, catch_all_p=0.15, raise_p=0.06, none_p=0.04):
+    def __init__(self, rng, n_rn=2, n_ra=2, catch_all_p=0.15, raise_p=0.06, none_p=0.04,
+                 fail_cell_p=0.0, handled_seq_p=0.0, lam_p=0.0):
         self.rng = rng
         self.n_rn, self.n_ra = n_rn, n_ra
         self.catch_all_p, self.raise_p, self.none_p = catch_all_p, raise_p, none_p
+        # optional vocabulary (all off by default: the random stream of the other users is unchanged)
+        #  fail_cell_p    a cells whose formula fails for every argument (raises, or calls such a cells)
+        #  handled_seq_p  a body that first calls k cells inside try/except (failures it handles itself when the
+        #                 callee fails) and only then evaluates the rest – handled failures FOLLOWED by whatever
+        #                 the rest does, in one evaluation
+        #  lam_p          the formula is given as a lambda expression (when the body has no statement-only parts)
+        self.fail_cell_p, self.handled_seq_p, self.lam_p = fail_cell_p, handled_seq_p, lam_p
+        self.failing = []
 
     def leaf(self, nparams):
         r = self.rng.random()
@@ -225,6 +292,35 @@ class Gen:
             return ("if", ("lt", ("lit", 0), ("p", 0)), step, self.expr(cid, nparams, arities, 1))
         return e
 
+    def fail_body(self, cid, nparams, arities):
+        """a formula that fails whatever the arguments: a raise, a call of such a cells, or a recursion that
+        descends p0 levels and raises at the bottom"""
+        kind = self.rng.choice([0, 0, 1, 1, 2, 3])
+        r = self.rng.random()
+        if self.failing and r < 0.4:
+            j = self.rng.choice(self.failing)
+            call = ("call", j, [self.leaf(nparams) for _ in range(arities[j])])
+            return call if self.rng.random() < 0.6 else ("add", call, self.leaf(nparams))
+        if nparams and r < 0.6:
+            rec = ("call", cid, [("sub", ("p", 0), ("lit", 1))] + [self.leaf(nparams) for _ in range(nparams - 1)])
+            return ("if", ("lt", ("lit", 0), ("p", 0)), rec, ("raise", kind))
+        return ("raise", kind)
+
+    def handled_then(self, cid, nparams, arities, rest):
+        """(try: call … except …) k times, then `rest`"""
+        tries = []
+        for _ in range(self.rng.choice([1, 1, 2, 3])):
+            if self.failing and self.rng.random() < 0.75:
+                j = self.rng.choice(self.failing)
+            else:
+                j = self.rng.randrange(cid)
+            call = ("call", j, [self.leaf(nparams) for _ in range(arities[j])])
+            c = "all" if self.rng.random() < 0.5 else self.rng.choice(["k0", "k1", "k2", "k3"])
+            tries.append(("try", call, c, self.leaf(nparams)))
+        for t in reversed(tries):
+            rest = ("add", t, rest)
+        return rest
+
     def program(self, ncells):
         arities, cells = [], []
         for cid in range(ncells):
@@ -237,6 +333,14 @@ class Gen:
                 "allow_none": self.rng.random() < 0.3,
                 "body": self.body(cid, nparams, arities),
             })
+            c = cells[-1]
+            if self.fail_cell_p and self.rng.random() < self.fail_cell_p:
+                c["body"] = self.fail_body(cid, nparams, arities)
+                self.failing.append(cid)
+            elif self.handled_seq_p and cid > 0 and self.rng.random() < self.handled_seq_p:
+                c["body"] = self.handled_then(cid, nparams, arities, c["body"])
+            if self.lam_p and lambda_ok(c["body"]) and self.rng.random() < self.lam_p:
+                c["lam"] = True
         # allow_none is looked up cells -> space -> model: in a third of the programs the settings are spread over
         # the three levels (every combination of unset / allowed / not allowed arises)
         if cells and self.rng.random() < 0.35:
